@@ -49,8 +49,12 @@ Content(cls) ==
     [] cls = "sc_nm1"     -> <<N - 1>>
     [] cls = "sc_n"       -> <<N>>
     [] cls = "sc_max"     -> <<255>>
+    [] cls = "coords"     -> <<SomePt[1], SomePt[2]>>
+    [] cls = "coords_bad" -> <<SomePt[1], (SomePt[2] + 1) % P>>
+    [] cls = "xonly"      -> <<SomePt[1]>>
+    [] cls = "xonly_bad"  -> <<NonRes>>
 BufClasses == {"inf", "cmp", "unc", "cmp_G", "noncanon", "offcurve", "nonresidue", "hybrid", "badlen", "empty",
-               "sc_small", "sc_zero", "sc_nm1", "sc_n", "sc_max"}
+               "sc_small", "sc_zero", "sc_nm1", "sc_n", "sc_max", "coords", "coords_bad", "xonly", "xonly_bad"}
 
 (* every call of the API over the pool: one record per (operation, slot assignment, control bit, byte class) *)
 Calls ==
@@ -74,6 +78,14 @@ Calls ==
   \cup {[op |-> o, s |-> s, w |-> w] : o \in {"key.NewPrivateFromScalar", "key.PrivScalar"}, s \in SS, w \in 1..WKey}
   \cup {[op |-> "key.NewPublicFromPoint", p |-> p, w |-> w] : p \in PS, w \in 1..WKey}
   \cup {[op |-> "key.PubPoint", v |-> v, w |-> w] : v \in PS, w \in 1..WKey}
+  \cup {[op |-> o, p |-> p] : o \in {"pt.IsYOdd"}, p \in PS}
+  \cup {[op |-> "pt.FromCoords", v |-> v, b |-> b] : v \in PS, b \in BS}
+  \cup {[op |-> "pt.Recover", v |-> v, s |-> s, c |-> c] : v \in PS, s \in SS, c \in {0, 1, 2, 3, 4}}
+  \cup {[op |-> o, b |-> b, w |-> w] : o \in {"skey.New", "skey.Bytes", "spub.New", "spub.Bytes"}, b \in BS, w \in 1..WKey}
+  \cup {[op |-> o, w |-> w] : o \in {"skey.FromECDSA", "spub.FromECDSA"}, w \in 1..WKey}
+  \cup {[op |-> "skey.Scalar", s |-> s, w |-> w] : s \in SS, w \in 1..WKey}
+  \cup {[op |-> "spub.FromPoint", p |-> p, w |-> w] : p \in PS, w \in 1..WKey}
+  \cup {[op |-> "spub.Point", v |-> v, w |-> w] : v \in PS, w \in 1..WKey}
   \cup {[op |-> "env.LoadBuf", b |-> b, cls |-> c, content |-> Content(c), w |-> w] : b \in BS, c \in BufClasses, w \in 1..WLoad}
   \cup {[op |-> "env.MutateBuf", b |-> b, cls |-> "flip", w |-> w] : b \in BS, w \in 1..WEnv}
   \cup {[op |-> "env.MutateScalar", s |-> s, w |-> w] : s \in SS, w \in 1..WEnv}
@@ -86,7 +98,8 @@ Concrete(st, ev) ==
   THEN [ev EXCEPT !.cls = "flip"] @@ [content |-> LET b == st.buf[ev.b] IN IF Len(b) = 0 THEN <<1>> ELSE <<(b[1] + 1) % 256>> \o Tail(b)]
   ELSE ev
 
-Init0 == [pt |-> [i \in PS |-> Uninit], sc |-> [i \in SS |-> EncSc(0)], buf |-> [i \in BS |-> <<>>], priv |-> Nil, pub |-> Nil]
+Init0 == [pt |-> [i \in PS |-> Uninit], sc |-> [i \in SS |-> EncSc(0)], buf |-> [i \in BS |-> <<>>], priv |-> Nil, pub |-> Nil,
+          spriv |-> Nil, spub |-> Nil]
 
 (* preludes: short call sequences that establish key objects / valid points, so that simulated behaviours start in interesting regions *)
 Preludes ==
@@ -96,6 +109,10 @@ Preludes ==
     << [op |-> "env.LoadBuf", b |-> 0, cls |-> "cmp", content |-> Content("cmp")], [op |-> "key.NewPublic", b |-> 0] >>,
     << [op |-> "env.LoadBuf", b |-> 0, cls |-> "sc_nm1", content |-> Content("sc_nm1")], [op |-> "sc.SetCanonicalBytes", s |-> 0, b |-> 0],
        [op |-> "key.NewPrivateFromScalar", s |-> 0], [op |-> "key.PubPoint", v |-> 0] >>,
+    << [op |-> "env.LoadBuf", b |-> 0, cls |-> "sc_small", content |-> Content("sc_small")], [op |-> "skey.New", b |-> 0], [op |-> "spub.Bytes", b |-> 0] >>,
+    << [op |-> "env.LoadBuf", b |-> 0, cls |-> "xonly", content |-> Content("xonly")], [op |-> "spub.New", b |-> 0] >>,
+    << [op |-> "env.LoadBuf", b |-> 0, cls |-> "sc_nm1", content |-> Content("sc_nm1")], [op |-> "key.NewPrivate", b |-> 0], [op |-> "skey.FromECDSA"],
+       [op |-> "spub.Point", v |-> 0] >>,
     << [op |-> "env.LoadBuf", b |-> 0, cls |-> "sc_n", content |-> Content("sc_n")], [op |-> "sc.SetCanonicalBytes", s |-> 0, b |-> 0],
        [op |-> "pt.Generator", v |-> 0], [op |-> "pt.Identity", v |-> 1] >> }
 RECURSIVE RunPrelude(_, _, _)
